@@ -253,6 +253,10 @@ type TaskMaster struct {
 	// we have only the task id, and they are called after the task is deleted from TaskMaster.tasks
 	taskToForkKeys map[string][]forkKey
 
+	// The edge of every fork by task id.
+	// A task without a from node has no fork keys, its edge is found here only.
+	forkEdges map[string]edge.Edge
+
 	// Set of incoming batches
 	batches map[string][]BatchCollector
 
@@ -297,6 +301,7 @@ func NewTaskMaster(id string, info vars.Infoer, d Diagnostic) *TaskMaster {
 		forks:          make(map[forkKey]map[string]edge.Edge),
 		forkStats:      make(map[forkKey]*expvar.Int),
 		taskToForkKeys: make(map[string][]forkKey),
+		forkEdges:      make(map[string]edge.Edge),
 		batches:        make(map[string][]BatchCollector),
 		tasks:          make(map[string]*ExecutingTask),
 		deleteHooks:    make(map[string][]deleteHook),
@@ -420,7 +425,7 @@ func (tm *TaskMaster) Drain() {
 	tm.mu.Lock()
 	defer tm.mu.Unlock()
 
-	for id := range tm.taskToForkKeys {
+	for id := range tm.forkEdges {
 		tm.delFork(id)
 	}
 }
@@ -901,6 +906,7 @@ func (tm *TaskMaster) newFork(taskName string, dbrps []DBRP, measurements []stri
 
 	d := tm.diag.WithEdgeContext(taskName, "stream", "stream0")
 	e := newEdge(taskName, "stream", "stream0", pipeline.StreamEdge, defaultEdgeBufferSize, d)
+	tm.forkEdges[taskName] = e
 
 	for _, key := range forkKeys(dbrps, measurements) {
 		tm.taskToForkKeys[taskName] = append(tm.taskToForkKeys[taskName], key)
@@ -950,6 +956,15 @@ func (tm *TaskMaster) delFork(id string) {
 			// remove the task in fork map
 			delete(tm.forks[key], id)
 		}
+	}
+
+	// The edge of a fork without keys, a stream task that has no from node, is closed as well:
+	// the task waits for the end of its input when it is stopped.
+	if edge, ok := tm.forkEdges[id]; ok {
+		if !isEdgeClosed {
+			edge.Close()
+		}
+		delete(tm.forkEdges, id)
 	}
 
 	// remove mapping from task id to it's keys
